@@ -228,6 +228,8 @@ func (r *Transport) writeLoop() {
 					if reconnectErr := r.reconnect(tr); reconnectErr != nil {
 						r.mu.Unlock()
 						writeOrDone(r.ctx, writeRes{err: fmt.Errorf("reconnect cause[%v]: %w", err, reconnectErr)}, r.writeResCh[data.id])
+						// the redial budget is exhausted: nobody will serve later writes, fail them instead of blocking
+						r.cancel()
 						return
 					}
 					r.mu.Unlock()
@@ -269,6 +271,8 @@ func (r *Transport) readLoop() {
 				if reconnectErr := r.reconnect(tr); reconnectErr != nil {
 					r.mu.Unlock()
 					writeOrDone(r.ctx, &readRes{err: fmt.Errorf("reconnect cause[%v]: %w", err, reconnectErr)}, r.readResCh)
+					// the redial budget is exhausted: pending and later writes must fail too
+					r.cancel()
 					return
 				}
 				r.mu.Unlock()
